@@ -380,3 +380,42 @@ class C17(DecProp):
     def extra(self, tier, cases, impl_out, model_out, hist):
         return [{"case": c, "impl": i[:400], "why": "instances on different threads / in different interleavings disagree"}
                 for c, i in zip(cases, impl_out) if "DIFFER" in i or is_crash(i)][:20]
+
+
+@register
+class C06(DecProp):
+    id = "C06"
+    thm_module = "H263V.Thm.C06"
+    rule = ("H lines: header descriptions (Sorenson: all 32 versions, all 256 temporal references, all 8 size codes x edge sizes x 4 picture types, all quantizers x deblocking flag; "
+            "baseline: all 32 PTYPE low-bit patterns x all source formats, all temporal references, wrong marker bits; PLUSPTYPE: all 2^10 OPPTYPE mode patterns, custom picture format "
+            "width x height grid (thorough: all 512 x 289), all PAR codes incl. EPAR, custom clock + ETR, UUI, SSS, ELNUM/RLNUM under the scalability option, RPSMF, TRPI/TRP, BCI, CPM/PSBI, "
+            "MPPTYPE, PB fields, PEI bytes, UFEP=000 after synthetic previous headers, every fixed marker wrong) written by the specification encoder, followed by random bits; parsed "
+            "by parser::decode_picture; the header (all public fields) and the number of bits consumed are compared with the model and with the specification's expected header.  "
+            "Non-trivial: every accepted header; distinct by text.")
+    assumptions = ["baseline (no PLUSPTYPE) headers are exercised without the scalability option: whether ELNUM accompanies them is not pinned down by the statement",
+                   "UFEP=000 headers can only follow a previous header without a format (the parser demands RPRP otherwise); such previous headers are synthesised through the hooks"]
+
+    def cases(self, tier, rng):
+        seed = rng.randint(1, 10 ** 6)
+        kind = "headersT" if tier == "thorough" else "headers"
+        cs = core.gen_lines(kind, seed, 0)
+        self._expected = dict(zip(cs, core.gen_lines(kind.replace("headers", "headersx"), seed, 0)))
+        return cs
+
+    def nontrivial(self, case, model_out):
+        return model_out.startswith("H ver=")
+
+    def tally(self, hist, case, impl, model):
+        k = "accepted" if impl.startswith("H ver=") else impl.split(" ")[1] if " " in impl else impl
+        hist[k] = hist.get(k, 0) + 1
+
+    def extra(self, tier, cases, impl_out, model_out, hist):
+        fails = []
+        for c, i in zip(cases, impl_out):
+            e = self._expected.get(c)
+            if e is None:
+                continue
+            ok = (i.startswith("H err:") and i.endswith("used=0")) if e == "H err:* used=0" else (i == e)
+            if not ok:
+                fails.append({"case": c, "impl": i[:500], "spec": e[:500], "why": "parsed header differs from the specification's"})
+        return fails[:20]
